@@ -222,6 +222,21 @@ func c07(r *core.Run) {
 			rec := args[len(args)-1]
 			up := p.ProvAt(rec, ".SpaceUsed", planCall).DataAtoms()
 			okU := len(up) == 1 && up[0].Kind == "store" && up[0].Name == stPay && up[0].Path == ".SpaceUsed"
+			// and it is carried over unchanged: every definition is the constant 0 or the loaded field itself (no arithmetic)
+			if al := recordAlloc(rec); al != nil {
+				for _, st := range fieldStores(al, "SpaceUsed") {
+					var leaves []ssa.Value
+					phiLeaves(st.Val, map[ssa.Value]bool{}, &leaves)
+					for _, lf := range leaves {
+						if c, ok := lf.(*ssa.Const); ok && c.Value != nil && c.Value.ExactString() == "0" {
+							continue
+						}
+						if _, isArith := lf.(*ssa.BinOp); isArith {
+							okU = false
+						}
+					}
+				}
+			}
 			r.Check(okU, "C07/R4", h.Key()+":usage-carried-over", p.InstrPos(planCall), "new SpaceUsed ⊵ loaded SpaceUsed only (0 when no plan)", fmt.Sprintf("the new plan's usage is not the loaded plan's usage: %v", up))
 			// when found: commit paths pass SpaceUsed <= Bytes
 			notFound := p.PassEdges(h.Fn, foundGuard(p, stPay, false))
